@@ -33,6 +33,12 @@ CHECKS.append(
      "level_note": "Trusted: the harness's cosine-sum evaluator with real-FFT bin weights; off-grid values of the FFT implementation are only compared with other observations of the same absolute time; distributional clause decided at 6 sigma on fixed seeds (gross normalisation errors, not per-mille bias).",
      "technique": TECH + "seeded PRNG stream with buggify injections + re-grid/shift/copy/rebuild/file-restart histories vs explicit cosine-sum evaluator and absolute-time map"})
 
+CHECKS.append(
+    {"property_id": "C11", "category": "fault_enumeration", "design_ref": "DESIGN.md §4 C11",
+     "text": "Seeded histories of add() calls on a real HDF5Writer over the simulated disk, across the legal settings of the six write_* options x require_trigger (bool or any sub-list) x detector size 1-4 x noisy/noiseless antennas, with ragged particle/ray/waveform counts and bool/dict/per-waveform triggers; rejected adds of both kinds (eight argument rejections the writer raises itself; 'the k-th access pyrex makes into a caller-supplied event / antenna / ray-path object raises' through attribute-agnostic counting proxies); close-readback-reopen(append) checkpoints as restarts. Final read-back through a fresh reader is compared field by field (bit-exact floats) with records captured at each accepted add; the index table must address rows inside the datasets. Fault enumeration: for sampled histories every collaborator access k=1..K of a chosen add is tried as the failure point (exhaustive within that add). Histories themselves are sampled.",
+     "level_note": "Trusted: h5py/libhdf5 on an in-memory file object (byte-level faults inside libhdf5 are not injected: no property speaks about them); the harness's record of what each option set must store. Nothing demanded about orphan rows / total_thrown after a rejected add, or files never closed; component triggers compared only where waveform rows exist.",
+     "technique": TECH + "seeded add/reject/restart histories on an in-memory disk + exhaustive enumeration of collaborator failure points within an add, vs per-add reference records"})
+
 NOT_APPLICABLE = [
     {"property_id": "C01", "reason": "pure function of (endpoints, ice parameters, dz): no state, randomness, I/O, schedule or fault for a simulator to control; needs an ODE/quadrature oracle (different technique)"},
     {"property_id": "C02", "reason": "metamorphic relations between pure function evaluations (swap/translate/rotate endpoints); no history or fault dimension (lazy-cache aspect of tracers is covered under C06)"},
@@ -45,7 +51,6 @@ NOT_APPLICABLE = [
     {"property_id": "C18", "reason": "pure geometric/metamorphic relations over inputs (image geometry, layer splitting)"},
     {"property_id": "C20", "reason": "statement about every attribute reference in the source against a dependency range: static resolution, not an execution under faults (its concrete instances on this tree were nevertheless repaired because they made the claimed properties fail)"},
     {"property_id": "C10", "reason": "claimed in DESIGN.md; check under construction in this session"},
-    {"property_id": "C11", "reason": "claimed in DESIGN.md; check under construction in this session"},
     {"property_id": "C12", "reason": "claimed in DESIGN.md; check under construction in this session"},
     {"property_id": "C13", "reason": "claimed in DESIGN.md; check under construction in this session"},
     {"property_id": "C14", "reason": "claimed in DESIGN.md; check under construction in this session"},
